@@ -347,7 +347,9 @@ def run_output_cases(rep, tier, rng):
     S = pa.DataFrameSchema({"a": pa.Column(int, coerce=True)})
     good, bad = frames()
     cases = []
-    for shape, getter in (("single", None), ("tuple", 0), ("tuple", 1), ("list", 1), ("dict", "k")):
+    for shape, getter in (("single", None), ("tuple", 0), ("tuple", 1), ("list", 1), ("dict", "k"),
+                          # negative positions designate from the end (the model is asked the equivalent position)
+                          ("tuple", -1), ("tuple", -2), ("list", -1), ("tuple3", -1), ("tuple3", -2), ("tuple3", 1)):
         for is_async in (False, True):
             for data in ("good", "bad"):
                 for opts in OPTS:
@@ -356,9 +358,13 @@ def run_output_cases(rep, tier, rng):
     dcases = []
     for c in cases:
         fid = RAW if c["data"] == "good" else BAD
-        out = {"single": fid, "tuple": [1, fid] if c["getter"] == 1 else [fid, 1], "list": [1, fid],
+        out = {"single": fid, "tuple": [1, fid] if c["getter"] in (1, -1) else [fid, 1], "list": [1, fid],
+               "tuple3": [2, fid, 1] if c["getter"] in (1, -2) else [2, 1, fid],
                "dict": [["j", 1], ["k", fid]]}[c["shape"]]
-        dcases.append({"mode": "output", "getter": c["getter"], "out": out, "accept": [[str(RAW), PARSED + 1], [str(BAD), 0]]})
+        g = c["getter"]
+        if isinstance(g, int) and g < 0:
+            g = len(out) + g
+        dcases.append({"mode": "output", "getter": g, "out": out, "accept": [[str(RAW), PARSED + 1], [str(BAD), 0]]})
     answers = run_driver("C17", dcases)
     orig = PDS.validate
     with mock.patch.object(PDS, "validate", recording_validate(orig)), warnings.catch_warnings():
@@ -367,7 +373,8 @@ def run_output_cases(rep, tier, rng):
             frame = (good if c["data"] == "good" else bad).copy()
 
             def mk():
-                return {"single": frame, "tuple": (1, frame) if c["getter"] == 1 else (frame, 1), "list": [1, frame],
+                return {"single": frame, "tuple": (1, frame) if c["getter"] in (1, -1) else (frame, 1), "list": [1, frame],
+                        "tuple3": (2, frame, 1) if c["getter"] in (1, -2) else (2, 1, frame),
                         "dict": {"j": 1, "k": frame}}[c["shape"]]
             if c["async"]:
                 @check_output(S, c["getter"], **c["opts"])
@@ -386,7 +393,7 @@ def run_output_cases(rep, tier, rng):
                     impl = ("ret", [[k, tag(v)] for k, v in res.items()])
                 else:
                     impl = ("ret", [tag(v) for v in res])
-                    if type(res).__name__ != c["shape"]:
+                    if type(res).__name__ != c["shape"].rstrip("3"):
                         rep.property_failure(c, f"a {c['shape']} came back as {type(res).__name__}")
             except Exception as e:  # noqa: BLE001
                 impl = (exc_kind(e), type(e).__name__)
@@ -502,6 +509,7 @@ def run_io_types(rep, tier, rng):
         elif impl[0] == "schemaError" and impl[1] != ("SchemaErrors" if opts.get("lazy") else "SchemaError"):
             rep.property_failure(c, f"check_types: lazy={opts.get('lazy', False)} raised {impl[1]}")
     run_types_nonframes(rep)
+    run_types_prevalidated(rep)
 
 
 def run_types_nonframes(rep):
@@ -553,6 +561,48 @@ def run_types_nonframes(rep):
         elif where == "output" and impl[0] == "ret":
             rep.property_failure(c, f"check_types: a {vname} value returned under `-> DataFrame[M]` reached the caller "
                                     "unvalidated", region=region)
+
+
+def run_types_prevalidated(rep):
+    """a frame that already went through another model's validate (and carries that schema) is still validated against
+    the annotated model — also when the two schemas share a name"""
+    import pandera as pa
+    from pandera import check_types
+    from pandera.typing import DataFrame
+
+    class M(pa.DataFrameModel):
+        a: int = pa.Field(ge=0)
+    loose_same_name = type("M", (pa.DataFrameModel,), {"__annotations__": {"a": int}})
+    loose_other_name = type("Loose", (pa.DataFrameModel,), {"__annotations__": {"a": int}})
+    loose_config_name = type("Other", (pa.DataFrameModel,), {"__annotations__": {"a": int},
+                                                            "Config": type("Config", (), {"name": "M"})})
+    for label, other in (("same class name", loose_same_name), ("another name", loose_other_name),
+                         ("Config.name equal", loose_config_name)):
+        for where in ("input", "output"):
+            c = {"dec": "check_types", "prevalidated_by": label, "where": where}
+            ran = []
+            with warnings.catch_warnings():
+                warnings.simplefilter("ignore")
+                carried = other.validate(pd.DataFrame({"a": [-1, 2]}))        # valid for the loose model, invalid for M
+                ok = M.validate(pd.DataFrame({"a": [1, 2]}))
+                ns = {"check_types": check_types, "DataFrame": DataFrame, "M": M, "ran": ran, "carried": carried, "ok": ok,
+                      "where": where}
+                exec(compile("@check_types\ndef g(df: DataFrame[M]) -> DataFrame[M]:\n    ran.append(1)\n"
+                             "    return carried if where == 'output' else df\n", "<c17-prev>", "exec", dont_inherit=True), ns)
+                try:
+                    ns["g"](carried if where == "input" else ok)
+                    impl = "ret"
+                except Exception as e:  # noqa: BLE001
+                    impl = exc_kind(e)
+            rep.case(c)
+            rep.evaluations += 1
+            rep.count(f"check_types-prevalidated:{where}:{impl}")
+            if where == "input" and ran:
+                rep.property_failure(c, f"check_types: the body ran on a frame that violates the annotated model; the frame had "
+                                        f"been validated by another model ({label})")
+            elif where == "output" and impl == "ret":
+                rep.property_failure(c, f"check_types: an output that violates the annotated model reached the caller; it had "
+                                        f"been validated by another model ({label})")
 
 
 def designation_equivalence(rep, cases):
